@@ -23,11 +23,22 @@ TERM_TEXTS = ['термин', '', 'term $[%d]', 'часть @{$[%d]|plur,gent}',
               '@{$[%d]|nomn|sing}', 'сломанная @{$[%d]|nomn', '@{$[%d]|plur,gent} и ещё @{1|часть}', '@{-1|зависимый} @{$[%d]|datv}']
 
 
-def fill(rnd, template, span=12):
+# names that usually do not exist yet: definitions mention them as dangling references, renames and insertions introduce them later
+DANGLING = ['X7', 'X8', 'D7', 'D8', 'S7', 'F7', 'C7', 'P7']
+
+
+def fill(rnd, template, span=12, dangling=0.06):
     n = template.count('%d')
     if n == 0:
         return template
     span = max(span, 1)
+    if n and rnd.random() < dangling:
+        # one mention replaced by a name that is (probably) not in the schema
+        at = rnd.randrange(n)
+        parts = template.split('$[%d]')
+        if len(parts) == n + 1:
+            template = '$[%d]'.join(parts[:at + 1]) + rnd.choice(DANGLING[:6]) + '$[%d]'.join(parts[at + 1:])
+            n -= 1
     return template % tuple(rnd.randrange(span) for _ in range(n))
 
 
@@ -63,7 +74,9 @@ def uid_arg(rnd, span=12, gone=0.08, foreign=0.04):
 def record(rnd, span=12):
     ctype = rnd.choice(CTYPES)
     r = rnd.random()
-    if r < 0.45:
+    if r < 0.1:
+        alias = rnd.choice(DANGLING)
+    elif r < 0.45:
         alias = LETTER[ctype] + str(rnd.randint(1, 15))
     elif r < 0.7:
         alias = '$[%d]' % rnd.randrange(span)          # taken alias
@@ -126,7 +139,11 @@ def edit_op(rnd, f='a', span=12, other=None, weights=None):
     elif k == 'setalias':
         op['uid'] = uid_arg(rnd, span)
         r = rnd.random()
-        if r < 0.55:
+        if r < 0.2:
+            op['alias'] = rnd.choice(DANGLING)
+        elif r < 0.35:
+            op['alias'] = rnd.choice('XCSADFTP') + str(rnd.randint(1, 4))      # likely a name used (or left dangling) before
+        elif r < 0.55:
             op['alias'] = rnd.choice('XCSADFTP') + str(rnd.randint(1, 30))
         elif r < 0.75:
             op['alias'] = '$[%d]' % rnd.randrange(span)
@@ -173,3 +190,36 @@ def edit_op(rnd, f='a', span=12, other=None, weights=None):
     elif k == 'merge':
         op['src'] = other
     return op
+
+
+def motif(rnd, f='a', span=12):
+    """short directed sequences aimed at incremental-update corner cases (each step is an ordinary editing operation)"""
+    k = rnd.choice(['introduce', 'there-and-back', 'swap', 'chain-edit', 'erase-recreate'])
+    i, j, t = rnd.randrange(span), rnd.randrange(span), rnd.randrange(span)
+    name = rnd.choice(DANGLING[:6])
+    mk = lambda **kw: dict({'op': 'form.op', 'f': f}, **kw)
+    if k == 'introduce':
+        # a definition (and its dependant) mention a name that only appears later through a rename without substitution
+        return [mk(k='setexpr', uid={'idx': i}, text=rnd.choice([name + '∪' + name, name + '×$[%d]' % j, 'ℬ(' + name + ')', name + '\\$[%d]' % j])),
+                mk(k='emplace', type='term', **{'def': rnd.choice(['$[%d]×$[%d]' % (i, j), 'ℬ($[%d])' % i, 'red($[%d])' % i])}),
+                mk(k='setalias', uid={'idx': t}, alias=name, subst=False),
+                mk(k='setalias', uid={'idx': t}, alias=rnd.choice('XDS') + str(rnd.randint(20, 29)), subst=rnd.random() < 0.5)]
+    if k == 'there-and-back':
+        back = '$[%d]' % t
+        return [mk(k='setalias', uid={'idx': t}, alias=name, subst=False),
+                mk(k='setalias', uid={'idx': t}, alias=rnd.choice('XDS') + str(rnd.randint(1, 3)), subst=False),
+                mk(k='setalias', uid={'idx': t}, alias=name, subst=rnd.random() < 0.5)]
+    if k == 'swap':
+        # two constituents exchange names through a temporary one
+        return [mk(k='setalias', uid={'idx': i}, alias='D30', subst=False),
+                mk(k='setalias', uid={'idx': j}, alias=rnd.choice(['X1', 'D1', 'S1', 'X2']), subst=False),
+                mk(k='setalias', uid={'idx': i}, alias=rnd.choice(['X1', 'D1', 'S1', 'X2', 'D2']), subst=False)]
+    if k == 'chain-edit':
+        # a chain of dependants, then the root changes type / breaks / heals
+        return [mk(k='emplace', type='term', **{'def': 'ℬ($[%d])' % i}),
+                mk(k='emplace', type='term', **{'def': 'Pr1($[%d])∪$[%d]' % (span, i)}),
+                mk(k='setexpr', uid={'idx': i}, text=rnd.choice(['$[%d]×$[%d]' % (j, j), '((', '', '$[%d]' % j])),
+                mk(k='setexpr', uid={'idx': i}, text=rnd.choice(['ℬ($[%d]×$[%d])' % (j, j), '$[%d]×$[%d]' % (j, t), '$[%d]' % t]))]
+    return [mk(k='erase', uid={'idx': i}),
+            mk(k='emplace', type=rnd.choice(['term', 'basic', 'structure']), **{'def': rnd.choice(['', 'ℬ($[%d])' % j, '$[%d]∪$[%d]' % (j, t)])}),
+            mk(k='setalias', uid={'idx': span}, alias=rnd.choice(['X1', 'D1', 'S1', 'X2', 'D2', 'D3']), subst=False)]
